@@ -133,6 +133,7 @@ MODES = [
     ('utf8::U1', 'twins::M1B', ['?', '??', 'é?', '€?', '€€?', '€€x?', '😀?', 'aß?', 'ö?', '€é?', 'a?', '???', 'a???']),
     ('utf8::U2', 'twins::M2B', ['?', '??', 'x?', 'x??', '"?', '"é?', '"€"?', 'x€?', '"a?', 'x???']),
     ('twins::M3', 'twins::M3B', ['?', '??', 'x?', 'x??', 'x\u00e9?', 'y?', 'y??', 'y\u00e9?', 'y\u00e9\u00f6?', 'x€?']),
+    ('twins::M4', 'twins::M4B', ['\u00e9?', '\u00e9a?', 'a\u00e9?', '\u00e0?', '?']),
 ]
 for (a, b, ctxs) in MODES:
     sa, sb = a.split('::')[-1], b.split('::')[-1]
